@@ -203,6 +203,7 @@ func c04(c *Ctx) {
 	r.Rule("R4.1", "path-sensitive dataflow over Seek's CFG: at every return the position field is unchanged or holds a value proven >= 0 on that path (sign tests, len/copy, non-negative constants, sums of non-negatives, non-narrowing conversions); a negativity test on the prospective position leads only to error returns")
 	r.Rule("R4.2", "if Read lazily builds a stream field (store guarded by field==nil), every path of another method that stores the position field ends with that stream field nil")
 	r.Rule("R4.3", "on every path of Read returning a count n that may be non-zero, the position field is stored old+n with n the returned SSA value")
+	r.Rule("R4.5", "no Reader/Seeker is ever stored into the state of a file node type (field, map entry or slice element of a type that hands out readers but is not itself a reader): cursors obtained separately share nothing mutable")
 	r.Rule("R4.4", "every AsLargeBytes in package file returns an object allocated in that call (or the result of another AsLargeBytes); never a value loaded from a field or global; no Reader/Seeker loaded from the receiver is embedded in it")
 	r.Assumes = append(r.Assumes, "integer overflow of position arithmetic is not modelled (sum of non-negatives treated as non-negative)", "entry value of the position field is >= 0 (inductive hypothesis; base case: allocation sites store constants)")
 
@@ -239,6 +240,7 @@ func c04(c *Ctx) {
 	}
 	r.Floor("R4.4", n44, 3)
 	r.Analysed["reader_types"] = len(rts)
+	c.checkNoCursorInNode()
 }
 
 func (c *Ctx) fieldOfAddr(fn *ssa.Function, addr ssa.Value) *types.Var {
@@ -693,4 +695,67 @@ func derivesFromReceiverLoad(v ssa.Value, recv ssa.Value) bool {
 		}
 	}
 	return false
+}
+
+// checkNoCursorInNode implements R4.5.
+func (c *Ctx) checkNoCursorInNode() {
+	r := c.R
+	isNodeType := func(n *types.Named) bool {
+		if n == nil {
+			return false
+		}
+		pt := types.NewPointer(n)
+		ms := types.NewMethodSet(pt)
+		has := map[string]bool{}
+		for i := 0; i < ms.Len(); i++ {
+			has[ms.At(i).Obj().Name()] = true
+		}
+		return has["AsLargeBytes"] && !has["Read"] && !has["Seek"]
+	}
+	nstores, nviol := 0, 0
+	for _, fn := range c.G.Funcs() {
+		rel, ok := c.P.PkgOf(fn)
+		if !ok || rel != "file" {
+			continue
+		}
+		for _, b := range fn.Blocks {
+			for _, ins := range b.Instrs {
+				var val, addr ssa.Value
+				switch x := ins.(type) {
+				case *ssa.Store:
+					val, addr = x.Val, x.Addr
+				case *ssa.MapUpdate:
+					if u, ok := x.Map.(*ssa.UnOp); ok {
+						val, addr = x.Value, u.X
+					}
+				}
+				if val == nil {
+					continue
+				}
+				fa := fieldAddrChain(addr)
+				if fa == nil {
+					continue
+				}
+				owner, _ := structOf(fa.X.Type())
+				if !isNodeType(owner) {
+					continue
+				}
+				nstores++
+				vt := val.Type()
+				if mi, ok := val.(*ssa.MakeInterface); ok {
+					vt = mi.X.Type()
+				}
+				if core.IsNilConst(val) || !isCursorT(vt) {
+					continue
+				}
+				nviol++
+				_, fv, _ := core.FieldAddrOf(fa)
+				r.Violate("R4.5", fmt.Sprintf("%s/cursor-in-node:%s.%s", core.FuncName(fn), owner.Obj().Name(), fv.Name()), c.P.Pos(ins.Pos()), fmt.Sprintf("a %s (stateful cursor) is stored into %s.%s: readers obtained separately from the node would share it", core.TypeNameOf(vt), owner.Obj().Name(), fv.Name()))
+			}
+		}
+	}
+	if nviol == 0 {
+		r.OK("R4.5", "file/node-state", "-", fmt.Sprintf("%d stores into file node state examined: none stores a Reader/Seeker", nstores))
+	}
+	r.Floor("R4.5", nstores, 4)
 }
